@@ -309,12 +309,14 @@ def matches_known(pid, case, verdict, known):
 
 
 def write_replay(pid, seed, n, payload):
-    os.makedirs(os.path.join(VERIF, "replays"), exist_ok=True)
-    p = os.path.join(VERIF, "replays", f"{pid}-{seed}-{n}.json")
+    d = os.environ.get("VERIF_REPLAY_DIR") or os.path.join(VERIF, "replays")
+    os.makedirs(d, exist_ok=True)
+    p = os.path.join(d, f"{pid}-{seed}-{n}.json")
     json.dump(payload, open(p, "w"), indent=1)
     return p
 
 
 def write_evidence(pid, ev):
-    os.makedirs(os.path.join(VERIF, "evidence"), exist_ok=True)
-    json.dump(ev, open(os.path.join(VERIF, "evidence", f"{pid}.json"), "w"), indent=1)
+    d = os.environ.get("VERIF_EVIDENCE_DIR") or os.path.join(VERIF, "evidence")
+    os.makedirs(d, exist_ok=True)
+    json.dump(ev, open(os.path.join(d, f"{pid}.json"), "w"), indent=1)
